@@ -18,6 +18,8 @@ type world struct {
 	e *twig.Engine
 	// fresh: a struct type nobody in this process has looked an attribute up on yet (S7b)
 	fresh func(x interface{}) interface{}
+	// seed: distinguishes the identifiers of this world from those of every earlier one (S1e)
+	seed int
 }
 
 var freshCounter int
@@ -47,6 +49,10 @@ type scenario struct {
 	modes   []string
 	// maxK caps the preemption bound for this scenario per tier (0 = tier default)
 	quickK, thoroughK int
+	// raceOnly: run by the free-running pass (and serially, k = 0) only — the interleaving space is
+	// far too large for the explorer; raceIters overrides the number of free-running iterations
+	raceOnly              bool
+	raceIters, raceItersT string
 }
 
 var tmpDir string
@@ -224,6 +230,27 @@ func bigTemplate(tag string, n int) string {
 	return sb.String()
 }
 
+// parseNames parses (and renders) a template of more than 4096 bytes that consists of n print tags with
+// identifiers no earlier parse in this process has seen: the process-wide identifier tables grow
+// while several parses run
+func parseNames(thread, n int) call {
+	return func(w *world) string {
+		var sb strings.Builder
+		for j := 0; j < n; j++ {
+			fmt.Fprintf(&sb, "{{ nm%d_%d_%d }}.", w.seed, thread, j)
+		}
+		t, err := w.e.ParseTemplate(sb.String())
+		if err != nil {
+			return "ERR " + firstLine(err.Error())
+		}
+		out, err := t.Render(map[string]interface{}{})
+		if err != nil {
+			return "ERR " + firstLine(err.Error())
+		}
+		return fmt.Sprintf("len=%d dots=%d", len(out), strings.Count(out, "."))
+	}
+}
+
 // parseDigest parses and renders src and reports a short digest of the output (marker letters seen,
 // length) instead of 3 KB of text
 func parseDigest(src string, x interface{}) call {
@@ -289,6 +316,13 @@ func scenarios() []scenario {
 			return w
 		}, modes: []string{"cache-on"}, quickK: 1, thoroughK: 2,
 			threads: [][]call{{parseDigest(bigTemplate("A", 34), 1)}, {parseDigest(bigTemplate("B", 38), 2)}}},
+		{name: "S1e four parses of 7 KB templates made of identifiers never seen before (process-wide identifier tables grow)", setup: func(mode string) *world {
+			w := newEngine(mode, nil, false)
+			freshCounter++
+			w.seed = freshCounter
+			return w
+		}, modes: []string{"cache-on"}, raceOnly: true, raceIters: "300", raceItersT: "500",
+			threads: [][]call{{parseNames(0, 500)}, {parseNames(1, 500)}, {parseNames(2, 500)}, {parseNames(3, 500)}}},
 		{name: "S2 relative includes in two directories", setup: warmAll("a/main", "b/main", "a/part", "b/part"), modes: allModes,
 			threads: [][]call{{rc("a/main", 1)}, {rc("b/main", 2)}}},
 		{name: "S2b relative extends+import in two directories", setup: warmAll("a/sub/page", "b/sub/page", "a/base", "b/base", "a/sub/m", "b/sub/m"), modes: []string{"cache-on", "auto-reload"},
